@@ -92,9 +92,11 @@ structure Cfg where
   dotRoot   : Bool
   /-- input patterns that went through glob resolution are checked in their unresolved form too -/
   checkGlobs : Bool
+  /-- output overlaps are decided on the path resolved from the workspace root -/
+  resolve   : Bool
 
-def Cfg.current : Cfg := ⟨true, true, true, true⟩
-def Cfg.old : Cfg := ⟨false, false, false, false⟩
+def Cfg.current : Cfg := ⟨true, true, true, true, true⟩
+def Cfg.old : Cfg := ⟨false, false, false, false, false⟩
 
 /-! ### BuildNodeMapFromPackages -/
 
@@ -231,10 +233,14 @@ def targetsOf : List Node → List Target
 def recsOf (k : OutKind) (key : Target → Bytes → Bytes) (ts : List Target) : List Rec :=
   ts.flatMap fun t => (t.outs.filter (·.kind = k)).map fun o => ⟨t.label, key t o.ident⟩
 
-def fileRecs (ts : List Target) : List Rec :=
-  recsOf .file (fun t i => cleanOutputPath t.label.pkg i) ts
-def dirRecs (ts : List Target) : List Rec :=
-  recsOf .dir (fun t i => cleanOutputPath t.label.pkg i) ts
+/-- the string on which overlaps are decided: `record.resolved` (before that fix: `record.path`) -/
+def outKey (cfg : Cfg) (ws : Bytes) (t : Target) (i : Bytes) : Bytes :=
+  if cfg.resolve then resolvedOutputPath ws t.label.pkg i else cleanOutputPath t.label.pkg i
+
+def fileRecs (cfg : Cfg) (ws : Bytes) (ts : List Target) : List Rec :=
+  recsOf .file (outKey cfg ws) ts
+def dirRecs (cfg : Cfg) (ws : Bytes) (ts : List Target) : List Rec :=
+  recsOf .dir (outKey cfg ws) ts
 def dockerRecs (ts : List Target) : List Rec :=
   recsOf .docker (fun _ i => i) ts
 
@@ -245,14 +251,14 @@ def pairsAny {α : Type} (p : α → α → Bool) : List α → Bool
 
 /-- `detectOutputConflicts(graph) != nil`. The per-tag and per-path grouping maps of the Go code
     enumerate exactly the pairs `i < j` with equal key. -/
-def hasConflict (cfg : Cfg) (ns : List Node) : Bool :=
+def hasConflict (cfg : Cfg) (ws : Bytes) (ns : List Node) : Bool :=
   let ts := targetsOf ns
   let unord := fun (r s : Rec) => !ordered cfg ns r.owner s.owner
   pairsAny (fun r s => r.path == s.path && unord r s) (dockerRecs ts)
-  || pairsAny (fun r s => r.path == s.path && unord r s) (fileRecs ts)
-  || pairsAny (fun r s => unord r s && pathsOverlap cfg.dotRoot r.path s.path) (dirRecs ts)
-  || (dirRecs ts).any fun d => (fileRecs ts).any fun f =>
-        unord d f && pathWithin cfg.dotRoot f.path d.path
+  || pairsAny (fun r s => r.path == s.path && unord r s) (fileRecs cfg ws ts)
+  || pairsAny (fun r s => unord r s && pathsOverlap cfg.dotRoot cfg.resolve r.path s.path) (dirRecs cfg ws ts)
+  || (dirRecs cfg ws ts).any fun d => (fileRecs cfg ws ts).any fun f =>
+        unord d f && pathWithin cfg.dotRoot cfg.resolve f.path d.path
 
 /-! #### the same with the memo table of `getAncestorSet` (what the code does)
 
@@ -316,29 +322,29 @@ def sameKeyC (cfg : Cfg) (ns : List Node) (c : Cache) (r s : Rec) : Bool × Cach
 
 def dirDirC (cfg : Cfg) (ns : List Node) (c : Cache) (r s : Rec) : Bool × Cache :=
   let o := orderedC cfg ns c r.owner s.owner
-  (!o.1 && pathsOverlap cfg.dotRoot r.path s.path, o.2)
+  (!o.1 && pathsOverlap cfg.dotRoot cfg.resolve r.path s.path, o.2)
 
 def dirFileC (cfg : Cfg) (ns : List Node) (c : Cache) (d f : Rec) : Bool × Cache :=
   let o := orderedC cfg ns c d.owner f.owner
-  (!o.1 && pathWithin cfg.dotRoot f.path d.path, o.2)
+  (!o.1 && pathWithin cfg.dotRoot cfg.resolve f.path d.path, o.2)
 
 /-- `detectOutputConflicts(graph) != nil` -/
-def hasConflictC (cfg : Cfg) (ns : List Node) : Bool :=
+def hasConflictC (cfg : Cfg) (ws : Bytes) (ns : List Node) : Bool :=
   let ts := targetsOf ns
   let st0 : Bool × Cache := (false, [])
   let st1 := pairsC (sameKeyC cfg ns) (dockerRecs ts) st0
-  let st2 := pairsC (sameKeyC cfg ns) (fileRecs ts) st1
-  let st3 := pairsC (dirDirC cfg ns) (dirRecs ts) st2
-  let st4 := (dirRecs ts).foldl (fun st d => rowC (dirFileC cfg ns) d (fileRecs ts) st) st3
+  let st2 := pairsC (sameKeyC cfg ns) (fileRecs cfg ws ts) st1
+  let st3 := pairsC (dirDirC cfg ns) (dirRecs cfg ws ts) st2
+  let st4 := (dirRecs cfg ws ts).foldl (fun st d => rowC (dirFileC cfg ns) d (fileRecs cfg ws ts) st) st3
   st4.1
 
 /-- `BuildGraph(nodes)`: `none` = a graph is returned -/
-def buildGraph (cfg : Cfg) (ns : List Node) : Option Kind :=
+def buildGraph (cfg : Cfg) (ws : Bytes) (ns : List Node) : Option Kind :=
   match edgeErrors ns with
   | some k => some k
   | none =>
     match findCycle ns with
-    | .ok _ => if hasConflictC cfg ns then some Kind.conflict else none
+    | .ok _ => if hasConflictC cfg ws ns then some Kind.conflict else none
     | _ => some Kind.cycle
 
 /-! ### CheckTargetConstraints -/
@@ -407,7 +413,7 @@ def analyzeWith (cfg : Cfg) (ws : Bytes) (ps : List Pkg) : Verdict :=
   match buildNodeMap ps with
   | none => .reject .duplicate
   | some ns =>
-    match buildGraph cfg ns with
+    match buildGraph cfg ws ns with
     | some k => .reject k
     | none =>
       match constraintErrors cfg ws ns with
